@@ -21,7 +21,8 @@ HINTS = (
     "*second* use, an effect that needs three or more steps, interactions between two features that are each tested alone (e.g. a filter AND a "
     "default, a retry AND a cancellation, a warm-up AND a throttle), rarely used but documented options, values that are off only by a small "
     "relative amount, state that survives from one run / task / request to the next, and behaviour that depends on volume (thousands of items) "
-    "or on exception sub-classes."
+    "or on exception sub-classes, two clients of one worker using a shared object at overlapping times, list inputs with repeated or re-ordered "
+    "entries, and a documented option meeting an error path."
 )
 
 
